@@ -35,6 +35,13 @@ def use(b, top):
 
 def veq(a, b):
     import pandas as pd
+    from twosigma.memento.partition import Partition
+
+    if isinstance(a, Partition) or isinstance(b, Partition):
+        if not (isinstance(a, Partition) and isinstance(b, Partition)):
+            return False
+        ka, kb = sorted(a.list_keys()), sorted(b.list_keys())
+        return ka == kb and all(veq(a.get(k), b.get(k)) for k in ka)
 
     if isinstance(a, pd.DataFrame) or isinstance(b, pd.DataFrame):
         return isinstance(a, pd.DataFrame) and isinstance(b, pd.DataFrame) and a.equals(b)
@@ -58,7 +65,11 @@ def check_partition(p, want, label):
             v = p.get(k)
         except Exception as e:
             return ("%s-get-raised" % label, "%s: get(%r) raised %r" % (label, k, e))
-        if not veq(v, want[k]):
+        try:
+            same = veq(v, want[k])
+        except Exception as e:
+            return ("%s-get-raised" % label, "%s: reading the value of %r raised %r" % (label, k, e))
+        if not same:
             return ("%s-value" % label, "%s: get(%r) = %.40r, overlay gives %.40r" % (label, k, v, want[k]))
     return None
 
